@@ -63,7 +63,11 @@ SS_Call(i, env) ==
     LET p == SS_Resolve(env, i.peer)  s == SS_Resolve(env, i.srv)  f == SS_Resolve(env, i.fn)
         a == SS_ResolveAll(env, i.args, 1, <<>>) IN
     IF p.r = "unbound" \/ s.r = "unbound" \/ f.r = "unbound" \/ a.r = "unbound" THEN [SS_St(env, "stopped") EXCEPT !.stuck = TRUE]
-    ELSE IF p.r = "fail" \/ s.r = "fail" \/ f.r = "fail" \/ a.r = "fail" THEN SS_St(env, "failed")
+    ELSE IF p.r = "fail" \/ s.r = "fail" \/ f.r = "fail" THEN SS_St(env, "failed")
+    \* the call is reached but its arguments cannot be computed: no call is made.  A peer that reached the call before
+    \* the arguments were known may have marked it as sent to its target (it cannot know yet): the skeleton keeps a
+    \* placeholder that a request-sent state - and nothing else - may occupy
+    ELSE IF a.r = "fail" THEN SS_St([env EXCEPT !.tr = Append(@, [k |-> "callfail", p |-> "", s |-> "", f |-> "", lsz |-> 0, rsz |-> 0])], "failed")
     ELSE IF ~IsStr(p.val.v) \/ ~IsStr(s.val.v) \/ ~IsStr(f.val.v) THEN SS_St(env, "failed")
     ELSE
     LET args == [j \in 1..Len(a.vals) |-> a.vals[j].v]
@@ -197,7 +201,10 @@ SS_BlockFollows(T, ti, tend, S, si, send) ==
     IF ti >= tend THEN TRUE
     ELSE IF si >= send THEN FALSE
     ELSE LET t == T[ti]  s == S[si] IN
-         IF t.k = "par" THEN
+         IF s.k = "callfail" THEN
+             \/ (t.k = "sent" /\ SS_BlockFollows(T, ti + 1, tend, S, si + 1, send))
+             \/ SS_BlockFollows(T, ti, tend, S, si + 1, send)
+         ELSE IF t.k = "par" THEN
              /\ s.k = "par"
              /\ ti + t.lsz + t.rsz < tend /\ t.lsz >= 0 /\ t.rsz >= 0
              /\ SS_BlockFollows(T, ti + 1, ti + 1 + t.lsz, S, si + 1, si + 1 + s.lsz)
